@@ -670,8 +670,10 @@ pub fn gen_case(r: &mut Rng, p: &Profile) -> Case {
                         _ => {
                             if r.chance(p.invalid_props.0, p.invalid_props.1) {
                                 actions.push(a_disconnect(Some(0), Some(&[numprop(17, 1)])))
-                            } else {
+                            } else if r.chance(1, 2) {
                                 actions.push(a_disconnect(Some(0), Some(&[])))
+                            } else {
+                                actions.push(a_disconnect(None, Some(&[])))
                             }
                         }
                     };
